@@ -1162,6 +1162,74 @@ def tuple_table_to_dict(fn: ast.FunctionDef) -> bool:
     return changed
 
 
+def inline_local_dispatch_tables(fn: ast.FunctionDef) -> bool:
+    """A local bound once to a dict display of constant keys with a lambda among the values, and only read (`T[x]`,
+    `T.get(x)`, `x in T`): every read gets the display itself (`x in T` the tuple of its keys), so the dict-dispatch
+    step and the folder see the table where it is used."""
+    tables: Dict[str, ast.Dict] = {}
+    stores: Dict[str, int] = {}
+    for n in ast.walk(fn):
+        if isinstance(n, ast.Name) and isinstance(n.ctx, (ast.Store, ast.Del)):
+            stores[n.id] = stores.get(n.id, 0) + 1
+    for n in ast.walk(fn):
+        tg, v = None, None
+        if isinstance(n, ast.Assign) and len(n.targets) == 1 and isinstance(n.targets[0], ast.Name):
+            tg, v = n.targets[0].id, n.value
+        elif isinstance(n, ast.AnnAssign) and isinstance(n.target, ast.Name) and n.value is not None:
+            tg, v = n.target.id, n.value
+        if tg and isinstance(v, ast.Dict) and v.keys and stores.get(tg) == 1 and all(isinstance(k, ast.Constant) for k in v.keys) and any(isinstance(e, ast.Lambda) for e in v.values) and len(v.keys) <= 12:
+            tables[tg] = v
+    # only read in the three forms
+    for name in list(tables):
+        for n in ast.walk(fn):
+            if isinstance(n, ast.Name) and n.id == name and isinstance(n.ctx, ast.Load):
+                par = getattr(n, "_parent", None)
+                ok = False
+                if isinstance(par, ast.Subscript) and par.value is n and isinstance(par.ctx, ast.Load):
+                    ok = True
+                elif isinstance(par, ast.Attribute) and par.attr == "get":
+                    ok = True
+                elif isinstance(par, ast.Compare) and len(par.ops) == 1 and isinstance(par.ops[0], (ast.In, ast.NotIn)) and par.comparators[0] is n:
+                    ok = True
+                if not ok:
+                    tables.pop(name, None)
+                    break
+    if not tables:
+        return False
+    changed = False
+
+    class _T(ast.NodeTransformer):
+        def visit_Compare(self, node: ast.Compare):
+            nonlocal changed
+            self.generic_visit(node)
+            if len(node.ops) == 1 and isinstance(node.ops[0], (ast.In, ast.NotIn)) and isinstance(node.comparators[0], ast.Name) and node.comparators[0].id in tables:
+                node.comparators[0] = ast.copy_location(ast.Tuple(elts=[clone(k) for k in tables[node.comparators[0].id].keys], ctx=ast.Load()), node.comparators[0])
+                changed = True
+            return node
+
+        def visit_Subscript(self, node: ast.Subscript):
+            nonlocal changed
+            self.generic_visit(node)
+            if isinstance(node.value, ast.Name) and node.value.id in tables and isinstance(node.ctx, ast.Load):
+                node.value = ast.copy_location(clone(tables[node.value.id]), node.value)
+                changed = True
+            return node
+
+        def visit_Attribute(self, node: ast.Attribute):
+            nonlocal changed
+            self.generic_visit(node)
+            if node.attr == "get" and isinstance(node.value, ast.Name) and node.value.id in tables:
+                node.value = ast.copy_location(clone(tables[node.value.id]), node.value)
+                changed = True
+            return node
+
+    # parents are needed for the read-form test above: set them on a private walk
+    _T().visit(fn)
+    if changed:
+        ast.fix_missing_locations(fn)
+    return changed
+
+
 def split_dict_dispatch(fn: ast.FunctionDef) -> bool:
     """`v = {k1: e1, k2: e2}.get(x)` followed by REST  ->  `if x == k1: REST[v:=e1] elif x == k2: REST[v:=e2] else:
     REST[v:=None]` when v is bound only there, the keys are constants, x and the values are side-effect free and REST
@@ -1311,6 +1379,10 @@ def normalised(ctx: Ctx, f: Func, steps: str = "delegation,tailcalls,calls,unrol
             round_changed |= unroll_literal_loops(fn, mconsts)
         if "dispatch" in want:
             round_changed |= tuple_table_to_dict(fn)
+            for _p in ast.walk(fn):
+                for _c in ast.iter_child_nodes(_p):
+                    _c._parent = _p  # type: ignore[attr-defined]
+            round_changed |= inline_local_dispatch_tables(fn)
             round_changed |= split_dict_dispatch(fn)
         if "aliasif" in want:
             round_changed |= split_alias_choice(fn)
